@@ -11,11 +11,11 @@ import (
 
 // Origin is a leaf of the backward slice of a value.
 type Origin struct {
-	Kind    string        // call | param | const | global | binop | freevar | alloc | other
-	Call    *ssa.Call     // Kind == call
-	Index   int           // result index of the call / parameter index
-	Path    []string      // field path applied on top (outermost last)
-	Val     ssa.Value     // the leaf value
+	Kind    string    // call | param | const | global | binop | freevar | alloc | other
+	Call    *ssa.Call // Kind == call
+	Index   int       // result index of the call / parameter index
+	Path    []string  // field path applied on top (outermost last)
+	Val     ssa.Value // the leaf value
 	Callees []*ssa.Function
 }
 
@@ -380,10 +380,10 @@ type BoolAtom struct {
 	Origins []Origin // where the tested boolean comes from (shallow)
 	Val     ssa.Value
 	// comparison form
-	IsCmp  bool
-	Op     string // method name (LT, GTE, Equal, IsZero, ...) or Go operator
-	X, Y   ssa.Value
-	Call   *ssa.Call
+	IsCmp bool
+	Op    string // method name (LT, GTE, Equal, IsZero, ...) or Go operator
+	X, Y  ssa.Value
+	Call  *ssa.Call
 }
 
 // Atom peels negations from cond and classifies it.
